@@ -92,8 +92,15 @@ fn run_schedule(cx: &mut Ctx, ex: &Exchange, r: &mut Rng, mode: usize) {
     let mut boff = 0usize;
     let mut guard = 0;
     let mut gave_up = r.chance(1, 3);
+    // calls in a row that neither moved the flow on nor transferred a byte: a healthy exchange makes progress
+    // (bytes keep arriving, buffers of every size let a body write through); give up instead of spinning
+    let mut idle = 0usize;
+    let mut last = (String::new(), 0usize, 0usize, 0usize);
     while guard < 6000 {
         guard += 1;
+        let now = (cx.rec.state().to_string(), soff, boff, arrived);
+        if now == last { idle += 1; } else { idle = 0; last = now; }
+        if idle > 300 { break; }
         match cx.rec.state() {
             "prepare" => { cx.op("proceed"); }
             "sendRequest" => {
